@@ -31,7 +31,7 @@ pub fn dump_map<K: KeyT, V: ValT>(m: &Map<K, V>) -> String {
             }
             None => s.push_str(" a=-"),
         }
-        s.push_str(" sing=0 salt=0 BIG");
+        let _ = write!(s, " sing=0 salt=0 cap={} BIG", m.capacity());
         return s;
     }
     let _ = write!(s, "m={} i={} g={} c={} s=", d.bucket_mask, d.items, d.growth_left, hex(&d.ctrl));
@@ -56,7 +56,7 @@ pub fn dump_map<K: KeyT, V: ValT>(m: &Map<K, V>) -> String {
         }
         None => s.push_str(" a=-"),
     }
-    let _ = write!(s, " sing={} salt={}", d.singleton as u8, m.hasher().salt);
+    let _ = write!(s, " sing={} salt={} cap={}", d.singleton as u8, m.hasher().salt, m.capacity());
     // address tie (Model/Addr.v): where the library puts the first and the last element slot, relative
     // to the start of the block
     if let (true, Some((_sz, _al, off))) = (d.bucket_mask != 0, d.alloc) {
